@@ -12,13 +12,13 @@ Fixpoint ref_run (iso : bool) (nres : N) (pool : list rule) (f : refmap) (ops : 
   | x :: tl =>
       match x with
       | CLoadAll ixs => let rs := pick pool ixs in let '(f', r) := rstep iso f (MLoadAll rs) in
-                        [if iso then 9%Z else if ref_dup_sensitive f rs then (-5)%Z else enc_ret r] :: ref_run iso nres pool f' tl
+                        [if iso then 9%Z else enc_ret r] :: ref_run iso nres pool f' tl
       | CLoadRes res ixs => let rs := pick pool ixs in let '(f', r) := rstep iso f (MLoadRes res rs) in
-                            [if ref_dup_sensitive f rs then (-5)%Z else enc_ret r] :: ref_run iso nres pool f' tl
+                            [enc_ret r] :: ref_run iso nres pool f' tl
       | CAppend ix => let rs := pick pool [ix] in
                       match rs with
                       | [r0] => let '(f', r) := rstep iso f (MAppend r0) in
-                                [if ref_dup_sensitive f rs then (-5)%Z else enc_ret r] :: ref_run iso nres pool f' tl
+                                [enc_ret r] :: ref_run iso nres pool f' tl
                       | _ => [[(-6)%Z]]
                       end
       | CClear => let '(f', r) := rstep iso f MClear in [enc_ret r] :: ref_run iso nres pool f' tl
